@@ -17,6 +17,7 @@ func init() {
 		Quick:      all("./internal/impl", "./proto", "./encoding/protojson", "./encoding/prototext"),
 		Thorough:   allAndLegacy("./internal/impl", "./proto", "./encoding/protojson", "./encoding/prototext"),
 		Run: func(c *Ctx) {
+			c.ruleNestedMerge("R-NESTED-MERGE")
 			c.ruleMergeLoop("R-MERGE-LOOP")
 			c.ruleMergeClass("R-MERGE-CLASS", 60)
 			c.ruleValueMergeClass("R-VALUE-MERGE-CLASS", 30)
